@@ -42,7 +42,7 @@ def check(ctx, tier):
     W.report_wrappers(ctx, tk, "C05.b")
     tk.purity("C05.p", [ctx.func(q) for q in ['raggedarray.RaggedArray.sum', 'raggedarray.RaggedArray.prod', 'raggedarray.RaggedArray.mean', 'raggedarray.RaggedArray.all', 'raggedarray.RaggedArray.any', 'raggedarray.RaggedArray.max', 'raggedarray.RaggedArray.min', 'raggedarray.RaggedArray.argmax', 'raggedarray.RaggedArray.argmin', 'raggedarray.RaggedArray._reduce']], "the operation does not write into its operands' buffers", content_only=True)
     from .. import hazards as _hz, scopes as _sc
-    _hz.generic(ctx, tk, "C05.z", _sc.scope(tk, "C05"))
+    _hz.generic(ctx, tk, "C05.z", _sc.scope(tk, "C05", depth=2))
     return {}
 
 
@@ -235,6 +235,49 @@ def named_reductions(ctx, tk):
                                node=d, key="axes", engine="E6")
 
 
+def _choose(t, env):
+    """the alternative of a conditional expression selected when the named parameters have the given constant
+    values; None when the condition cannot be evaluated"""
+    while t.k == "ifexp":
+        c = _ev_const(t.a[0], env)
+        if c is None:
+            return None
+        t = t.a[1] if c else t.a[2]
+    return t
+
+
+def _ev_const(c, env):
+    if c.k == "cmp":
+        def val(x):
+            if x.k == "param" and x.a[0] in env:
+                return (env[x.a[0]],)
+            if x.k == "const":
+                return (x.a[0],)
+            if x.k == "un" and x.a[0] == "-" and x.a[1].k == "const":
+                return (-x.a[1].a[0],)
+            if x.k in ("tuple", "list") and all(val(y) is not None for y in x.a[0]):
+                return (tuple(val(y)[0] for y in x.a[0]),)
+            return None
+        l, r = val(c.a[1]), val(c.a[2])
+        if l is None or r is None:
+            return None
+        l, r = l[0], r[0]
+        try:
+            return {"==": lambda: l == r, "!=": lambda: l != r, "<": lambda: l < r, "<=": lambda: l <= r, ">": lambda: l > r, ">=": lambda: l >= r,
+                    "in": lambda: l in r, "not in": lambda: l not in r, "is": lambda: l is r, "is not": lambda: l is not r}[c.a[0]]()
+        except Exception:
+            return None
+    if c.k == "un" and c.a[0] == "not":
+        v = _ev_const(c.a[1], env)
+        return None if v is None else (not v)
+    if c.k == "bool":
+        vs = [_ev_const(x, env) for x in c.a[1]]
+        if c.a[0] == "and":
+            return False if any(v is False for v in vs) else (None if any(v is None for v in vs) else True)
+        return True if any(v is True for v in vs) else (None if any(v is None for v in vs) else False)
+    return None
+
+
 def wrapper(ctx, tk):
     w = ctx.func("raggedarray.reduction.reduction_func.new_func")
     fa = ctx.fa(w)
@@ -243,14 +286,28 @@ def wrapper(ctx, tk):
     for n in fa.cfg.stmts():
         if n.kind == "stmt" and isinstance(n.ast, ast.Assign):
             tm = fa.term(n.ast.value, n)
+            if tm.k == "ifexp" and all(a.k == "sub" and a.a[1].k == "tuple" and any(is_const(x, None) for x in a.a[1].a[0]) for a in alts(tm)):
+                # the reshape depends on a condition: for both spellings of the row axis (-1 and 1) the chosen form is the column
+                for v in (-1, 1):
+                    ch = _choose(tm, {"axis": v})
+                    if ch is None:
+                        ctx.unknown("C05.d", w, "keepdims adds the new axis last (a column) for axis=%d" % v, "condition not evaluated", node=n.ast, key="keepdims-axis:%d" % v, engine="E5")
+                        continue
+                    last = ch.a[1].a[0]
+                    ctx.decide("C05.d", w, "keepdims adds the new axis last (a column) for axis=%d" % v, True if (len(last) == 2 and is_const(last[1], None)) else False,
+                               "for axis=%d the result is indexed with %s: a row of shape (1, n_rows) instead of the column (n_rows, 1)" % (v, ch.a[1]), node=n.ast, key="keepdims-axis:%d" % v, engine="E5")
+                continue
             if tm.k == "sub" and tm.a[1].k == "tuple" and any(is_const(x, None) for x in tm.a[1].a[0]):
                 facts = facts_at(fa, n)
                 kd = [truth for t, truth, _ in facts if t.k == "param" and t.a[0] == "keepdims"]
                 ctx.decide("C05.d", w, "the result is reshaped to a column exactly when keepdims is true", True if kd == [True] else (False if kd == [False] else None),
                            "the column reshape runs when keepdims is false", node=n.ast, key="keepdims", engine="E1")
                 last = tm.a[1].a[0]
-                ctx.decide("C05.d", w, "keepdims adds the new axis last (a column)", True if (len(last) == 2 and is_const(last[1], None)) else False,
-                           "index %s" % (tm.a[1],), node=n.ast, key="keepdims-axis", engine="E5")
+                col = len(last) == 2 and is_const(last[1], None)
+                # a row form is wrong only where a row axis (-1 or 1) can reach it
+                row_axis_reaches = [v for v in (-1, 1) if not any(_ev_const(t, {"axis": v}) is (not truth) for t, truth, _ in facts)]
+                ctx.decide("C05.d", w, "keepdims adds the new axis last (a column) for row reductions", True if (col or not row_axis_reaches) else False,
+                           "index %s is reached for axis=%s" % (tm.a[1], row_axis_reaches), node=n.ast, key="keepdims-axis", engine="E5")
     # axis None: numpy function of the same name on the flat data
     for r in fa.cfg.returns():
         tm = fa.term(r.ast.value, r)
